@@ -97,7 +97,8 @@ pub fn run(rep: &mut Report, tier: &str, seed: u64) -> Result<(), String> {
         }
         // 3. nested subtree
         if i % 3 == 0 {
-            let sub = real_svg_subtree(&mut rng);
+            // one in five: the embedded <svg> is an empty-element tag carrying attributes that svgdx would expand
+            let sub = if rng.chance(1, 5) { format!("<svg xmlns=\"http://www.w3.org/2000/svg\" viewBox=\"0 0 3 3\" {}/>", rng.pick(&["wh=\"10\" xy=\"1\"", "cxy=\"4 5\" text=\"t\"", "width=\"4\" height=\"4\"", "xy=\"^|h\" class=\"d-fill-red\""])) } else { real_svg_subtree(&mut rng) };
             if ex.parse(sub.as_bytes()).is_err() { continue; }
             // where the subtree stands: first / middle / last child of the root, or of a group
             let place = rng.below(6);
